@@ -2,8 +2,10 @@ package main
 
 import (
 	"bytes"
+	"crypto/ed25519"
 	"fmt"
 	"io"
+	"sync"
 	"time"
 
 	"google.golang.org/protobuf/proto"
@@ -12,31 +14,41 @@ import (
 	"github.com/tink-crypto/tink-go/v2/core/registry"
 	"github.com/tink-crypto/tink-go/v2/daead"
 	"github.com/tink-crypto/tink-go/v2/hybrid"
+	"github.com/tink-crypto/tink-go/v2/hybrid/hpke"
 	"github.com/tink-crypto/tink-go/v2/insecurecleartextkeyset"
 	"github.com/tink-crypto/tink-go/v2/jwt"
 	"github.com/tink-crypto/tink-go/v2/key"
 	"github.com/tink-crypto/tink-go/v2/keyderivation"
 	"github.com/tink-crypto/tink-go/v2/keyset"
 	"github.com/tink-crypto/tink-go/v2/mac"
+	macsubtle "github.com/tink-crypto/tink-go/v2/mac/subtle"
 	"github.com/tink-crypto/tink-go/v2/monitoring"
 	"github.com/tink-crypto/tink-go/v2/prf"
 	tinkpb "github.com/tink-crypto/tink-go/v2/proto/tink_go_proto"
 	"github.com/tink-crypto/tink-go/v2/signature"
+	"github.com/tink-crypto/tink-go/v2/signature/compositemldsa"
 	"github.com/tink-crypto/tink-go/v2/signature/mldsa"
 	"github.com/tink-crypto/tink-go/v2/signature/slhdsa"
+	sigsubtle "github.com/tink-crypto/tink-go/v2/signature/subtle"
 	"github.com/tink-crypto/tink-go/v2/streamingaead"
 	"github.com/tink-crypto/tink-go/v2/testing/fakekms"
+	"github.com/tink-crypto/tink-go/v2/testkeyset"
 	"github.com/tink-crypto/tink-go/v2/tink"
 	"github.com/tink-crypto/tink-go/v2/verifbridge/vb"
 	"verif/ref"
 )
 
+// Inputs are shared by all threads and live in buffers WITH SPARE CAPACITY: an operation that appends to a
+// caller's slice (instead of copying) writes into memory another thread is reading – a race the free-running
+// pass reports – and corrupts nothing visible only by luck.
+func spare(b []byte) []byte { return append(make([]byte, 0, len(b)+48), b...) }
+
 var (
-	msgA = ref.Pattern(2, 5)
-	msgB = ref.Pattern(3, 40)
-	msgC = ref.Pattern(2, 17)
-	adA  = []byte("ad-A")
-	adB  = []byte("associated-data-B-longer")
+	msgA = spare(ref.Pattern(2, 5))
+	msgB = spare(ref.Pattern(3, 40))
+	msgC = spare(ref.Pattern(2, 17))
+	adA  = spare([]byte("ad-A"))
+	adB  = spare([]byte("associated-data-B-longer"))
 )
 
 func must[T any](v T, err error) T {
@@ -189,8 +201,12 @@ func sigScen(name string, hdf func() *keyset.Handle, withSign bool) {
 // ---- hybrid -------------------------------------------------------------------------------------------
 
 func hybridScen(name string, t *tinkpb.KeyTemplate) {
+	hybridScenH(name, func() *keyset.Handle { return handleFrom(t) })
+}
+
+func hybridScenH(name string, hdf func() *keyset.Handle) {
 	add("hybrid-"+name, func() *built {
-		priv := handleFrom(t)
+		priv := hdf()
 		pub := must(priv.Public())
 		type pair struct {
 			e tink.HybridEncrypt
@@ -563,7 +579,14 @@ func registerScenarios() {
 	sigScen("ed25519", func() *keyset.Handle { return handleFrom(signature.ED25519KeyTemplate()) }, true)
 	sigScen("rsassapss-3072", func() *keyset.Handle { return handleFrom(signature.RSA_SSA_PSS_3072_SHA256_32_F4_Key_Template()) }, true)
 	sigScen("rsassapkcs1-3072", func() *keyset.Handle { return handleFrom(signature.RSA_SSA_PKCS1_3072_SHA256_F4_Key_Template()) }, true)
-	sigScen("mldsa65", func() *keyset.Handle { return handleFromParams(must(mldsa.NewParameters(mldsa.MLDSA65, mldsa.VariantTink))) }, true)
+	sigScen("mldsa65", func() *keyset.Handle {
+		return handleFromParams(must(mldsa.NewParameters(mldsa.MLDSA65, mldsa.VariantTink)))
+	}, true)
+	sigScen("composite-mldsa65-ed25519", func() *keyset.Handle {
+		return handleFromParams(must(compositemldsa.NewParameters(compositemldsa.Ed25519, compositemldsa.MLDSA65, compositemldsa.VariantTink)))
+	}, true)
+	sigScen("legacy-adapter-custom-keymanager", legacySigHandle, true)
+	macScen("legacy-adapter-custom-keymanager", legacyMACHandle)
 	sigScen("slhdsa-sha2-128s-verify", func() *keyset.Handle {
 		return handleFromParams(must(slhdsa.NewParameters(slhdsa.SHA2, 64, slhdsa.SmallSignature, slhdsa.VariantTink)))
 	}, false)
@@ -571,6 +594,12 @@ func registerScenarios() {
 	hybridScen("hpke-p256", hybrid.DHKEM_P256_HKDF_SHA256_HKDF_SHA256_AES_256_GCM_Raw_Key_Template())
 	hybridScen("ecies-p256-gcm", hybrid.ECIESHKDFAES128GCMKeyTemplate())
 	hybridScen("ecies-p256-ctrhmac", hybrid.ECIESHKDFAES128CTRHMACSHA256KeyTemplate())
+	hybridScenH("hpke-xwing", func() *keyset.Handle {
+		return handleFromParams(must(hpke.NewParameters(hpke.ParametersOpts{KEMID: hpke.X_WING, KDFID: hpke.HKDFSHA256, AEADID: hpke.AES256GCM, Variant: hpke.VariantTink})))
+	})
+	hybridScenH("hpke-mlkem768", func() *keyset.Handle {
+		return handleFromParams(must(hpke.NewParameters(hpke.ParametersOpts{KEMID: hpke.ML_KEM768, KDFID: hpke.HKDFSHA256, AEADID: hpke.AES128GCM, Variant: hpke.VariantNoPrefix})))
+	})
 	streamScen("aesgcmhkdf", streamingaead.AES128GCMHKDF4KBKeyTemplate())
 	streamScen("aesctrhmac", streamingaead.AES128CTRHMACSHA256Segment4KBKeyTemplate())
 	jwtMACScen()
@@ -607,10 +636,64 @@ func registerScenarios() {
 	})
 }
 
+// ---- legacy (non-full) primitives behind the factory adapters: custom key managers ------------------------
+
+const legacyMACURL = "type.googleapis.com/verif.c18.LegacyMacKey"
+const legacySignURL = "type.googleapis.com/verif.c18.LegacyEd25519PrivateKey"
+const legacyVerifyURL = "type.googleapis.com/verif.c18.LegacyEd25519PublicKey"
+
+type legacyKM struct {
+	url  string
+	prim func(serializedKey []byte) (any, error)
+	pub  func(serializedKey []byte) (*tinkpb.KeyData, error)
+}
+
+func (k *legacyKM) Primitive(b []byte) (any, error)      { return k.prim(b) }
+func (k *legacyKM) NewKey([]byte) (proto.Message, error) { return nil, fmt.Errorf("not supported") }
+func (k *legacyKM) DoesSupport(u string) bool            { return u == k.url }
+func (k *legacyKM) TypeURL() string                      { return k.url }
+func (k *legacyKM) NewKeyData([]byte) (*tinkpb.KeyData, error) {
+	return nil, fmt.Errorf("not supported")
+}
+
+type legacyPrivKM struct{ legacyKM }
+
+func (k *legacyPrivKM) PublicKeyData(b []byte) (*tinkpb.KeyData, error) { return k.pub(b) }
+
+var legacyOnce sync.Once
+
+func registerLegacy() {
+	legacyOnce.Do(func() {
+		must(0, registry.RegisterKeyManager(&legacyKM{url: legacyMACURL, prim: func(b []byte) (any, error) { return macsubtle.NewHMAC("SHA256", b, 16) }}))
+		must(0, registry.RegisterKeyManager(&legacyPrivKM{legacyKM{url: legacySignURL,
+			prim: func(b []byte) (any, error) { return sigsubtle.NewED25519Signer(b) },
+			pub: func(b []byte) (*tinkpb.KeyData, error) {
+				pub := ed25519.NewKeyFromSeed(b).Public().(ed25519.PublicKey)
+				return &tinkpb.KeyData{TypeUrl: legacyVerifyURL, Value: pub, KeyMaterialType: tinkpb.KeyData_ASYMMETRIC_PUBLIC}, nil
+			}}}))
+		must(0, registry.RegisterKeyManager(&legacyKM{url: legacyVerifyURL, prim: func(b []byte) (any, error) { return sigsubtle.NewED25519Verifier(b) }}))
+	})
+}
+
+func legacyHandle(url string, value []byte, mt tinkpb.KeyData_KeyMaterialType) *keyset.Handle {
+	registerLegacy()
+	ks := &tinkpb.Keyset{PrimaryKeyId: 0x01020304, Key: []*tinkpb.Keyset_Key{{KeyData: &tinkpb.KeyData{TypeUrl: url, Value: value, KeyMaterialType: mt},
+		Status: tinkpb.KeyStatusType_ENABLED, KeyId: 0x01020304, OutputPrefixType: tinkpb.OutputPrefixType_LEGACY}}}
+	return must(testkeyset.NewHandle(ks))
+}
+
+func legacyMACHandle() *keyset.Handle {
+	return legacyHandle(legacyMACURL, ref.KeyBytes("c18-legacy-mac", 32), tinkpb.KeyData_SYMMETRIC)
+}
+
+func legacySigHandle() *keyset.Handle {
+	return legacyHandle(legacySignURL, ref.KeyBytes("c18-legacy-sig", 32), tinkpb.KeyData_ASYMMETRIC_PRIVATE)
+}
+
 type nopLogger struct{}
 
-func (nopLogger) Log(uint32, int) {}
-func (nopLogger) LogFailure()     {}
+func (nopLogger) Log(uint32, int)     {}
+func (nopLogger) LogFailure()         {}
 func (nopLogger) LogKeyExport(uint32) {}
 
 type nopClient struct{}
